@@ -1,4 +1,4 @@
-\* exhaustive, repaired flags: 1 database x 1 collection name x 2 incarnations x 1 partition name x 2 incarnations, all states
+\* exhaustive, repaired flags: 1 database x 1 collection name x 2 incarnations x 1 partition name x 2 incarnations, all states; source time 10 min behind the local clock
 SPECIFICATION Spec
 CHECK_DEADLOCK FALSE
 INVARIANTS TypeOK ContractMilvus ContractKafka
@@ -13,6 +13,8 @@ CONSTANTS
   PStates = {"creating", "created", "dropping", "dropped", "tombstone"}
   Concrete <- NamesPlain
   Now = 100
+  Skews = {"behind"}
+  ClampLocal = FALSE
   FixStaleDb = TRUE
   LiveDbGuard = TRUE
   SafeKeys = TRUE
